@@ -105,14 +105,23 @@ Theorem C02_any_history_is_a_map : forall ops s,
   forall k, stored inflate (fst (run_hist H s ops)) k = spec_hist H inflate (stored inflate (fst s)) ops k.
 Proof. exact (history_refines H inflate H_inj). Qed.
 
-(* non-vacuity: the empty container satisfies the invariant and a history of operations whose preconditions are trivial is admissible *)
+(* non-vacuity: the empty container satisfies the invariant, and a history with every kind of write whose precondition does not depend on
+   the world - loose adds, a direct-to-pack batch (plain and no_holes) and an import of objects whose stored blob is their content, a
+   deletion, a clean - is admissible, whatever the hash *)
 Example C02_history_nonvacuous :
   let w0 := {| loose := []; packs := []; sandbox := []; db := [] |} in
-  Inv H inflate w0 /\ pre_hist H inflate (w0, local0) [OAdd 0 [[1%N; 2%N]; [3%N]]; OClean true []; ODelete [H [1%N; 2%N; 3%N]]; OAdd 1 []].
+  let o1 := mkPobj (H [1%N; 2%N]) [1%N; 2%N] false 2 in
+  let o2 := mkPobj (H []) [] false 0 in
+  Inv H inflate w0 /\
+  pre_hist H inflate (w0, local0)
+    [OAdd 0 [[1%N; 2%N]; [3%N]]; OTopack 0%Z [o1; o2; o1] false true true; OTopack 0%Z [o2] true false true;
+     OImport [(0%Z, [o1]); (1%Z, [o2])] false true true; OClean true []; ODelete [H [1%N; 2%N; 3%N]]; OAdd 1 []].
 Proof.
   cbn zeta. split.
   - unfold Store.Inv. cbn. repeat split; constructor.
-  - cbn. tauto.
+  - assert (A1 : aobj_ok H inflate (mkPobj (H [1%N; 2%N]) [1%N; 2%N] false 2)) by (exists [1%N; 2%N]; cbn; auto).
+    assert (A2 : aobj_ok H inflate (mkPobj (H []) [] false 0)) by (exists []; cbn; auto).
+    cbn [pre_hist pre]. repeat split; repeat constructor; assumption.
 Qed.
 (* loosen_object: writing the content a key reads back as into a loose file changes what no key reads back as *)
 Theorem C02_loosen_changes_no_view : forall s n chunks k0,
